@@ -5,7 +5,7 @@
 # Imports
 ###############################################################################
 
-from typing import Dict, List, Mapping, Optional, Set, Tuple
+from typing import Any, Dict, List, Mapping, Optional, Set, Tuple
 
 from attrs import field, frozen
 from typeguard import typechecked
@@ -283,18 +283,38 @@ class HplContradiction(HplPredicate):
 ###############################################################################
 
 
-def _get_reference_table(expr: HplExpression) -> Dict[str, List[HplExpression]]:
+def _get_reference_table(expr: HplExpression) -> Dict[Any, List[HplExpression]]:
+    # References are grouped by their printed form. Occurrences of a quantified
+    # variable are also told apart by the quantifier that binds them, so that
+    # sibling quantifiers may reuse a variable name for domains of other types.
     ref_table = {}
-    for obj in expr.iterate():
-        assert isinstance(obj, HplExpression)
-        if obj.is_accessor or (obj.is_value and obj.is_variable):
-            key = str(obj)
-            refs = ref_table.get(key)
-            if refs is None:
-                refs = []
-                ref_table[key] = refs
-            refs.append(obj)
+    _collect_references(expr, {}, ref_table)
     return ref_table
+
+
+def _collect_references(
+    expr: HplExpression,
+    binders: Dict[str, int],
+    ref_table: Dict[Any, List[HplExpression]],
+):
+    assert isinstance(expr, HplExpression)
+    if expr.is_quantifier:
+        _collect_references(expr.domain, binders, ref_table)
+        binders = dict(binders)
+        binders[expr.variable] = id(expr)
+        _collect_references(expr.condition, binders, ref_table)
+        return
+    if expr.is_accessor or (expr.is_value and expr.is_variable):
+        key = str(expr)
+        if expr.is_value and expr.name in binders:
+            key = (key, binders[expr.name])
+        refs = ref_table.get(key)
+        if refs is None:
+            refs = []
+            ref_table[key] = refs
+        refs.append(expr)
+    for child in expr.children():
+        _collect_references(child, binders, ref_table)
 
 
 def predicate_from_expression(expr: HplExpression) -> HplPredicate:
